@@ -1,6 +1,9 @@
 package ref
 
-import "math/big"
+import (
+	"math/big"
+	"sort"
+)
 
 // TempoEv is a tempo event: from AbsTick on, a quarter note lasts USPerQuarter microseconds.
 type TempoEv struct {
@@ -14,11 +17,52 @@ type TempoEv struct {
 type TempoMap struct {
 	Resolution int64
 	Events     []TempoEv // in file order, ticks non-decreasing
+
+	// prefix sums for large maps (built on first use, rebuilt when Events has changed in length or place):
+	// the state of the loop in Exact before event i
+	idxFor []TempoEv
+	idxPos []int64
+	idxNum []*big.Int
+	idxSeg []int
+	idxCur []int64
+}
+
+func (m *TempoMap) index() {
+	if len(m.idxFor) == len(m.Events) && len(m.Events) > 0 && &m.idxFor[0] == &m.Events[0] {
+		return
+	}
+	n := len(m.Events)
+	m.idxFor = m.Events
+	m.idxPos, m.idxNum, m.idxSeg, m.idxCur = make([]int64, n+1), make([]*big.Int, n+1), make([]int, n+1), make([]int64, n+1)
+	num := new(big.Int)
+	cur, pos, seg := int64(500000), int64(0), 0
+	for i, e := range m.Events {
+		m.idxPos[i], m.idxNum[i], m.idxSeg[i], m.idxCur[i] = pos, new(big.Int).Set(num), seg, cur
+		if e.AbsTick > pos {
+			num.Add(num, new(big.Int).Mul(big.NewInt(e.AbsTick-pos), big.NewInt(cur)))
+			seg++
+			pos = e.AbsTick
+		}
+		cur = int64(e.USPerQuarter)
+	}
+	m.idxPos[n], m.idxNum[n], m.idxSeg[n], m.idxCur[n] = pos, num, seg, cur
 }
 
 // Exact returns the numerator of the exact time of tick t in microseconds over the
 // denominator Resolution, and the number of tempo segments of non-zero length traversed.
 func (m *TempoMap) Exact(t int64) (num *big.Int, segments int) {
+	if len(m.Events) > 256 {
+		// same result as the loop below: state before the first event whose tick is >= t, then the rest up to t
+		m.index()
+		i := sort.Search(len(m.Events), func(k int) bool { return m.Events[k].AbsTick >= t })
+		num = new(big.Int).Set(m.idxNum[i])
+		segments = m.idxSeg[i]
+		if t > m.idxPos[i] {
+			num.Add(num, new(big.Int).Mul(big.NewInt(t-m.idxPos[i]), big.NewInt(m.idxCur[i])))
+			segments++
+		}
+		return
+	}
 	num = new(big.Int)
 	cur := int64(500000)
 	var pos int64
